@@ -518,6 +518,14 @@ class World:
         a = self.pick_container('a', mutable=False)
         item = self.pick_root(mutable=False)
         choices = []
+        if c is not None and c.kids and rng.random() < 0.1:
+            # replacing a child by itself is accepted and changes nothing
+            ch = rng.choice(c.kids)
+            sc = self.handle(c)
+            sh = self.handle(ch)
+            self.emit('repp %d %d %d' % (sc, sh, sh), ['1'])
+            self.last_mut = 'refusal:repp-self'
+            return
         if c is not None:
             n = len(c.kids)
             sc = self.handle(c)
